@@ -171,38 +171,42 @@ SKS = [
     (dict(pre=[9], effs=[12], goal=[0]), [["x0"]]),                                                            # 4 undefined read in a precondition
     (dict(pre=[], effs=[11, 12], goal=[9]), [["x0", "c1"]]),                                                   # 5 u becomes defined, goal reads it
     (dict(pre=[12], effs=[17, 12], goal=[0]), [["x0"]]),                                                       # 6 effect value reads an undefined fluent
-    (dict(pre=[4], effs=[2], second_action=[3, 12], pre2=[5], n_bounds="both", goal=[0]), [["x0", "d"], ["c", "lb"]]),  # 7 two actions: order matters
+    (dict(pre=[4], effs=[2], second_action=[3, 12], pre2=[5], n_bounds="both", goal=[0]), [["x0", "d"], ["c", "lb"], ["d"]]),  # 7 two actions: order matters
     (dict(pre=[3], effs=[7, 12], goal=[10], w_init="any"), [[]]),                                              # 8 object fluent
     (dict(pre=[1], effs=[2, 9, 3], effcond=0, n_bounds="upper", goal=[4]), [["x0", "d"]]),                    # 9 inc/dec accumulate, half-bounded type
     (dict(pre=[11], effs=[14, 15], effcond=10, goal=[11], w_init="any"), [[]]),                                # 10 nested fluent, conditional object assignment
     (dict(pre=[], effs=[5, 16, 0], effcond=4, n_bounds="both", goal=[1]), [["x0", "c2"], ["d2", "lb"]]),       # 11 conditional assign + decrease
-    (dict(pre=[], effs=[7, 14], effcond=0, goal=[10], w_init="any"), [[]]),                                    # 12 two object assignments, possibly the same value
+    (dict(pre=[], effs=[7, 14], effcond=0, goal=[10], w_init="id"), [[]]),                                     # 12 two object assignments, possibly the same value
 ]
 
-_WIDE = {2: 1, 6: 1, 7: 2, 8: 1, 12: 2}  # skeleton index -> number of first-step splits of the length-2 shard
+_WIDE = {2: 1, 6: 1, 7: 2, 8: 1, 12: 1}  # skeleton index -> number of first-step splits of the length-2 shard
 _RES = [[1, 2, 0], [0, 0, 0], [3, 1, 1], [2, 2, 3]]
 
 
 def shards(tier, seed):
     out = []
     if tier == "quick":
-        plan = [(0, 0), (0, 1), (1, 0), (2, 0), (3, 0), (3, 1), (4, 0), (5, 0), (6, 0), (7, 0), (7, 1), (8, 0), (9, 0), (11, 0), (12, 0)]
-        for j, (i, s) in enumerate(plan):
+        # (skeleton, index of its sym list, which plan lengths: "all" | "short" (0..1) | "long" (2))
+        plan = [(0, 0, "all"), (0, 1, "all"), (1, 0, "all"), (2, 0, "all"), (3, 0, "all"), (3, 1, "all"), (4, 0, "all"), (5, 0, "all"),
+                (6, 0, "all"), (7, 0, "short"), (7, 2, "long"), (7, 1, "all"), (8, 0, "all"), (9, 0, "all"), (11, 0, "all"), (12, 0, "all")]
+        for j, (i, s, mode) in enumerate(plan):
             sk, syms = SKS[i]
             skd = dict(sk, sym=syms[s])
             res = _RES[j % len(_RES)]
             name = f"sk{i:02d}-{'-'.join(syms[s]) or 'nosym'}"
+            mk = lambda suffix, **kw: dict(name=f"{name}-{suffix}", fn="h_agree", kwargs=dict(sk=skd, res=res, **kw), budget=110, per_path=40)  # noqa: E731
             if i not in _WIDE:
-                out.append(dict(name=f"{name}-len0to2", fn="h_agree", kwargs=dict(sk=skd, min_len=0, max_len=2, res=res), budget=110, per_path=40))
+                out.append(mk("len0to2", min_len=0, max_len=2))
                 continue
-            # wide skeletons (many Boolean initial values / instances) are cut by plan length, the widest also by the first step
-            out.append(dict(name=f"{name}-len0to1", fn="h_agree", kwargs=dict(sk=skd, min_len=0, max_len=1, res=res), budget=110, per_path=40))
-            if _WIDE[i] == 1:
-                out.append(dict(name=f"{name}-len2", fn="h_agree", kwargs=dict(sk=skd, min_len=2, max_len=2, res=res), budget=110, per_path=40))
-            else:
-                for f in range(_WIDE[i]):
-                    out.append(dict(name=f"{name}-len2-first{f}", fn="h_agree", kwargs=dict(sk=skd, min_len=2, max_len=2, res=res, first=f),
-                                    budget=110, per_path=40))
+            # wide skeletons (many Boolean initial values / instances / numeric forks) are cut by plan length, the widest also by the first step
+            if mode in ("all", "short"):
+                out.append(mk("len0to1", min_len=0, max_len=1))
+            if mode in ("all", "long"):
+                if _WIDE[i] == 1:
+                    out.append(mk("len2", min_len=2, max_len=2))
+                else:
+                    for f in range(_WIDE[i]):
+                        out.append(mk(f"len2-first{f}", min_len=2, max_len=2, first=f))
     else:
         for i, (sk, syms) in enumerate(SKS):
             for sym in syms:
